@@ -1157,6 +1157,22 @@ func extractC05(c *Ctx) error {
 	c.P("Definition put_replace_guard : bool := %v. (* `if mid != 0 { GetMsgByID(mid) ... m.Msg = anyMsg } else { mid = IncrementNextID }` *)",
 		strings.Contains(pb, "mid=opts.MsgIDToReplace") && strings.Contains(pb, "ifmid!=0{") && strings.Contains(pb, "qsmi,err:=c.GetMsgByID(sdkCtx,mid)") &&
 			strings.Contains(pb, "}else{mid=c.qo.Ider.IncrementNextID("))
+	// the counter is touched by Put alone: no other function of the queue (Remove, save, ...) reaches the id generator
+	nIder := 0
+	var iderIn []string
+	for _, d := range qf.Decls {
+		fd, ok := d.(*ast.FuncDecl)
+		if !ok || fd.Body == nil {
+			continue
+		}
+		k := strings.Count(c05norm(c.Src(fd.Body)), ".Ider.")
+		if k > 0 {
+			nIder += k
+			iderIn = append(iderIn, fd.Name.Name)
+		}
+	}
+	c.P("Definition id_generator_uses_in_queue : Z := %d. (* in: %s *)", nIder, strings.Join(iderIn, ","))
+	c.P("Definition id_generator_used_by_put_only : bool := %v.", nIder == 1 && len(iderIn) == 1 && iderIn[0] == "Put")
 	idf, err := c.Parse("util/keeper/id_generation.go")
 	if err != nil {
 		return err
@@ -1167,6 +1183,15 @@ func extractC05(c *Ctx) error {
 	}
 	ib := c05norm(c.Src(inc.Body))
 	c.P("Definition id_increment_is_last_plus_one : bool := %v.", strings.Contains(ib, "nextID:=i.GetLastID(ctx,name)+1") && strings.Contains(ib, "store.Set(prefixKey,Uint64ToByte(nextID))") && strings.Contains(ib, "returnnextID"))
+	// the generator's store is written by IncrementNextID alone
+	nSet := 0
+	for _, d := range idf.Decls {
+		if fd, ok := d.(*ast.FuncDecl); ok && fd.Body != nil {
+			b := c05norm(c.Src(fd.Body))
+			nSet += strings.Count(b, ".Set(") + strings.Count(b, ".Delete(")
+		}
+	}
+	c.P("Definition id_generator_store_writes : Z := %d. (* Set/Delete calls in util/keeper/id_generation.go *)", nSet)
 
 	// ---- BatchQueue: a second counter for staging keys; messages get their ids from the shared one ----
 	{
